@@ -92,7 +92,16 @@ func main() {
 	worker := flag.String("worker", "", "worker binary")
 	raceWorker := flag.String("race-worker", "", "worker binary built with -race")
 	replay := flag.String("replay", "", "replay file")
+	needsRace := flag.Bool("needs-race", false, "print yes/no: does the plan of this property and tier contain a -race batch")
 	flag.Parse()
+	if *needsRace {
+		if sp := specs[*prop]; sp != nil && (anyRace(sp.Plan("quick")) || anyRace(sp.Plan("thorough"))) {
+			fmt.Println("yes")
+		} else {
+			fmt.Println("no")
+		}
+		return
+	}
 
 	spec := specs[*prop]
 	if spec == nil {
